@@ -19,7 +19,7 @@ LEVEL_TEXT = ('Bounded symbolic verification of BGP.dataReceived/parse_buffer on
               '(3) equality of all observables between whole, 1-cut, 2-cut and byte-at-a-time delivery.')
 LEVEL_NOTE = ('Twisted is modelled (vf/env/twisted_stub.py): after loseConnection no further data is delivered. Streams <= 3 frames, '
               '<= 80 octets; cut positions are enumerated shapes (all positions in thorough), header fields symbolic.')
-LEVEL_ADDED = 'Also (quick tier): two-cut shapes where the first message is split after its header and the completing segment carries the beginning of the next message.'
+LEVEL_ADDED = 'Also (quick tier): two-cut shapes where the first message is split after its header and the completing segment carries the beginning of the next message. 300 messages in one segment followed by a header with symbolic fields.'
 TECHNIQUE = 'symbolic execution of BGP.dataReceived/parse_buffer (CrossHair+z3) with symbolic header fields; reference-deframer oracle; segmentation equivalence'
 EXPLANATION = 'C04: framing obligations on the real BGP protocol object with symbolic header fields.'
 BOUNDS = 'streams of <= 3 frames / <= 80 octets; length field 0..65535 and type 0..255 symbolic; cuts enumerated'
